@@ -11,7 +11,7 @@ namespace verif {
 const PropertyInfo kInfo = {
     "C20", 8, 8, 30,
     "tape -> one Node (handshake cooldown from {1,5,30}s, PoW difficulty from {0,4,8}) receives a history of transport handshakes from 3 claimed peer ids through its "
-    "handshake handler: valid (one of 3 identities per claimed id, so a different identity may reuse a claimed id), invalid key {0,1,p,p+1,2^32-1} with a nonce solved for it, "
+    "handshake handler: valid (one of 3 identities per claimed id, so a different identity may reuse a claimed id), invalid key {0,1,p,p+1,p+2,p+3,3*10^9,2^32-3,2^32-2,2^32-1, uniform in [p+2,2^32-2]} with a nonce solved for it, "
     "valid key + wrong nonce, nonce solved for another responder, exact replay of the previous handshake, random key/nonce; spacing before each from {0, 1ms, cooldown-1ns, "
     "cooldown, cooldown+1ns, 3*cooldown}. Oracle: accepted <=> 1 < key < p and the reference PoW (OpenSSL SHA-256 over be64-length-prefixed claimed id, node id, be64 key, "
     "be64 nonce) has >= difficulty leading zero bits; on acceptance the returned and registered session key equals the reference derivation for (node scalar, offered key) and "
@@ -111,8 +111,9 @@ void run_case(Ctx& c) {
                 break;
             }
             case 2: {
-                static const std::uint32_t kBad[] = {0u, 1u, 2147483647u, 2147483648u, 4294967295u};
-                pub = kBad[r.a(1) % 5];
+                static const std::uint32_t kBad[] = {0u, 1u, 2147483647u, 2147483648u, 4294967295u, 2147483649u, 2147483650u, 3000000000u, 4294967293u, 4294967294u};
+                pub = kBad[r.a(1) % 10];
+                if ((r.a(2) & 7) == 7) pub = 2147483647u + 2u + static_cast<std::uint32_t>(Prng(r.seed()).below(2147483645ull));  // anywhere in [p+2, 2^32-2]
                 nonce = solve(claimed[p], node.id(), pub, difficulty, r.a16(4));
                 kind = "invalid-key";
                 break;
